@@ -47,6 +47,12 @@ SPEC = {
 }
 
 MUTATIONS = """
+Seeded change /tmp/seedout/C21/patch.diff (isBathPathOf reduced to a bare string-prefix test): exit 1 -- extractor reports the
+ shouldExcludeMatch/isBathPathOf shape unreadable, Expected facts + thorough correspondence: 20 disagreements, oracle VIOLATION
+ class unexplained with input (package with BUILD.plz at top level and build name BUILD: Glob=[] specified=["BUILD.plz"]).
+Fix phase: three fix: commits (322a687, d6bcce1, a32e1e7); on each cumulative copy 347/347 and ./check C21 quick exit 0 with the
+ repaired class gone and no new class.
+
 Dry-runs on a scratch copy (VERIF_REPO=/var/tmp/mC21 ./check C21 quick), findings loaded from findings_inbox/C21.jsonl:
  M1 glob.go:52   drop `ReplaceAll(pattern, ".", "\\.")`                 -> exit 1: C21_facts_ok fails (the model follows the extracted chain),
                                                                           oracle VIOLATION class unexplained with a concrete tree/pattern
